@@ -119,6 +119,10 @@ def run_case(sc: Dict[str, Any]) -> Outcome:
         if not wh.is_good(specs[i]):
             if nack > 1:
                 out.add("C02.a", f"skipped message {i} acked {nack} times")
+            elif nack and at != "when_received":
+                # no task function ran and no store was attempted or skipped for a no-result outcome: the configured point was never reached
+                out.add("C02.b", f"{at}: message {i} ({specs[i]['kind']}: its task function never started) was acknowledged; events={kinds} - the broker cannot "
+                                 f"redeliver it to a worker that can process it")
             continue
         if not res["returned"]:
             continue
